@@ -46,7 +46,7 @@ def undecodable(kind, data):
     c.every_pel = True
     st = DataStream(data, byte_order='big', is_signed=False)
     try:
-        with redirect_stderr(io.StringIO()), redirect_stdout(io.StringIO()):
+        with redirect_stderr(io.StringIO()), redirect_stdout(io.StringIO()), common.deadline(common.call_limit()):
             if kind == 'summary':
                 eid, _ = peltool.parsePELSummary(st, c)
                 return not eid
@@ -59,6 +59,8 @@ def undecodable(kind, data):
                 return True
             ok, _ = peltool.generateUH(st, ph.creatorID, out)
             return not ok
+    except common.Hang:
+        return True     # a file on which decoding never returns is certainly one "the mode cannot decode"
     except Exception:
         return True
 
